@@ -88,13 +88,13 @@ pub fn generate(src: &str, state_machine: bool) -> Generated {
     let graph = verif_hooks::take_graph().map(convert);
     match res {
         Err(e) => Generated {
-            observed: Observed { accepted: false, graph, errors: vec![], panicked: Some(panic_msg(e)) },
+            observed: Observed { accepted: false, graph, errors: vec![], panicked: Some(panic_msg(e)), explicit_default_differs: None },
             tokens: None,
         },
         Ok(out) => {
             let mut errors = vec![];
             collect_errors(out.clone(), &mut errors);
-            Generated { observed: Observed { accepted: errors.is_empty(), graph, errors, panicked: None }, tokens: Some(out) }
+            Generated { observed: Observed { accepted: errors.is_empty(), graph, errors, panicked: None, explicit_default_differs: None }, tokens: Some(out) }
         }
     }
 }
